@@ -71,8 +71,39 @@ def merge_reachable(repo):
     return list(seen.values())
 
 
+def _callers(repo):
+    """callee qualname -> set of caller (top-level) qualnames, over resolvable calls"""
+    out = {}
+    for g in repo.all_functions():
+        top = g
+        while top.outer is not None:
+            top = top.outer
+        for c in calls_in(g.node):
+            for t in repo.resolve_call(c, g):
+                out.setdefault(t.qualname, set()).add(top.qualname)
+    return out
+
+
+def _allowed_role(q, callers, depth=0, seen=None):
+    """role string if q is an allowed reader or a helper that is only called from allowed readers"""
+    if q in ALLOWED_READERS:
+        return ALLOWED_READERS[q]
+    seen = seen or set()
+    if depth > 3 or q in seen:
+        return None
+    seen.add(q)
+    cs = callers.get(q)
+    if not cs:
+        return None
+    roles = [_allowed_role(c, callers, depth + 1, seen) for c in cs]
+    if all(roles):
+        return 'helper of %s' % sorted(cs)[0]
+    return None
+
+
 def r1(repo, run):
     reach = {id(f.node) for f in merge_reachable(repo)}
+    callers = _callers(repo)
     n = 0
     for fi in repo.all_functions():
         reads = _flag_reads(fi)
@@ -82,8 +113,9 @@ def r1(repo, run):
         top = fi
         while top.outer is not None:
             top = top.outer
-        if top.qualname in ALLOWED_READERS:
-            run.ok('C15.R1', fi, '%s reads %s' % (fi.qualname, sorted(reads)), 'role: ' + ALLOWED_READERS[top.qualname])
+        role = _allowed_role(top.qualname, callers)
+        if role:
+            run.ok('C15.R1', fi, '%s reads %s' % (fi.qualname, sorted(reads)), 'role: ' + role)
         elif id(fi.node) in reach or id(top.node) in reach:
             run.violation('C15.R1', fi, '%s reads %s' % (fi.qualname, sorted(reads)), 'a function on the merge path reads safety / new-path flags: marking a node !unsafe or !new can then change the merged data')
         else:
